@@ -2,13 +2,14 @@
 import enccommon
 import gen
 from enccommon import model_line, canon_impl, ints
+import enccommon
 from vlib import fmt_list
 
 PID = 'C19'
 RULE = ('encodation_plan with the hook counters: random structured inputs up to 3116 bytes, adversarial alternations (A1A1.., aAaA.., '
         'digit runs of every parity, bytes that keep several modes within a twelfth of a codeword of each other), all mode subsets and '
         'symbol lists; counters compared exactly with the model and with the proved bound; non-trivial = input of >= 8 bytes')
-THEOREMS = ''
+THEOREMS = 'C19_bound, C19_live, C19_steps_per_pass'
 ASSUMPTIONS = ['steps = calls of Plan::step inside optimize() as counted by the cfg(datamatrix_verif) hook']
 MAX_LIVE = 36
 
